@@ -20,7 +20,7 @@ impl<R> Crc32Reader<R> {
 //@use crc32reader_new
 //@use crc32reader_check_matches
 //@use crc32reader_into_inner
-//@use crc32reader_get_mut
+//@use crc32reader_get_mut optional
 }
 
 //@impl src/crc32.rs | impl<R: Read> Read for Crc32Reader<R>
